@@ -1,0 +1,54 @@
+//go:build verif
+
+package netmap
+
+// Machine-checked contracts (govc, see /verif/DESIGN.md). Comment-only file.
+
+// ---- C38 (admission): the inner ring co-signs a node's admission only if the request's
+// main transaction script was found valid (no RPC error AND a HALT result) and the node
+// validator accepted the node's information.
+//@ ghost pred admissionScriptValid() bool
+//@ ghost pred nodeInfoValidated() bool
+//@ callrule admission_script_fact in (*Processor).processAddNode
+//@   property C38
+//@   callee (*client.Client).IsValidScript
+//@   defines (err == nil && res0) ==> admissionScriptValid()
+//@ callrule admission_validator_fact in (*Processor).processAddNode
+//@   property C38
+//@   callee (netmap.NodeValidator).Verify
+//@   defines err == nil ==> nodeInfoValidated()
+//@ callrule admission_only_for_valid_request_and_node in (*Processor).processAddNode
+//@   property C38
+//@   callee *).NotarySignAndInvokeTX, *).NotaryInvoke, *).Invoke
+//@   requires [request_transaction_valid] admissionScriptValid()
+//@   requires [every_validator_accepted] nodeInfoValidated()
+
+// ---- C38 (epoch tick): an alphabet node asks for exactly the epoch after the one it
+// currently counts; and handling a new-epoch notification always records the notified
+// epoch (before any early return), so the next tick asks for notified epoch + 1.
+//@ ghost pred epochNow() uint64
+//@ callrule tick_epoch_counter_fact in (*Processor).processNewEpochTick
+//@   property C38
+//@   callee *).EpochCounter
+//@   defines epochNow() == result
+//@ callrule tick_asks_for_next_epoch in (*Processor).processNewEpochTick
+//@   property C38
+//@   callee *).NewEpoch
+//@   requires [exactly_next_epoch] a0 == epochNow() + 1
+
+//@ ghost field epochRecorded(x int) bool
+//@ ghost field recordedEpoch(x int) uint64
+//@ callrule new_epoch_records_counter in (*Processor).processNewEpoch
+//@   property C38
+//@   callee *).SetEpochCounter
+//@   assigns epochRecorded, recordedEpoch
+//@   defines epochRecorded(0) && recordedEpoch(0) == a0
+//@ ghost pred notifiedEpoch() uint64
+//@ callrule new_epoch_number_fact in (*Processor).processNewEpoch
+//@   property C38
+//@   callee (netmap.NewEpoch).EpochNumber
+//@   defines notifiedEpoch() == result
+//@ func (*Processor).processNewEpoch
+//@   property C38
+//@   valid !epochRecorded(0)
+//@   ensures [notified_epoch_always_recorded] epochRecorded(0) && recordedEpoch(0) == notifiedEpoch()
